@@ -89,22 +89,22 @@ func printMemoryManagerSummary() {
 	unrotaedSize := writer.GetSizeOfUnrotatedMetadata()
 	log.Infof("GlobalMemoryTracker: Total allocatable Memory: %+v MB", sutils.BytesToMiB(memory.GlobalMemoryTracker.TotalAllocatableBytes))
 	log.Infof("GlobalMemoryTracker: segCount: %v, indexCount: %v, CmiInMemoryAllocated: %+v MB",
-		memory.GlobalMemoryTracker.SegStoreSummary.TotalSegmentCount,
-		memory.GlobalMemoryTracker.SegStoreSummary.TotalTableCount,
+		atomic.LoadUint64(&memory.GlobalMemoryTracker.SegStoreSummary.TotalSegmentCount),
+		atomic.LoadUint64(&memory.GlobalMemoryTracker.SegStoreSummary.TotalTableCount),
 		sutils.BytesToMiB(memory.GlobalMemoryTracker.RotatedCMIBytesInMemory))
 
 	log.Infof("GlobalMemoryTracker: AllSegReadStores has %v CMI entries in memory. This accounts for %v MB",
-		memory.GlobalMemoryTracker.SegStoreSummary.InMemoryCMICount,
-		memory.GlobalMemoryTracker.SegStoreSummary.InMemoryBlockMicroIndexSizeMB)
+		atomic.LoadUint64(&memory.GlobalMemoryTracker.SegStoreSummary.InMemoryCMICount),
+		atomic.LoadUint64(&memory.GlobalMemoryTracker.SegStoreSummary.InMemoryBlockMicroIndexSizeMB))
 
 	log.Infof("GlobalMemoryTracker: AllSegReadStores %v SSM entries in memory. This accounts for %v MB",
-		memory.GlobalMemoryTracker.SegStoreSummary.InMemorySearchMetadataCount,
-		memory.GlobalMemoryTracker.SegStoreSummary.InMemorySsmSizeMB)
+		atomic.LoadUint64(&memory.GlobalMemoryTracker.SegStoreSummary.InMemorySearchMetadataCount),
+		atomic.LoadUint64(&memory.GlobalMemoryTracker.SegStoreSummary.InMemorySsmSizeMB))
 
 	log.Infof("GlobalMemoryTracker: MetricsMetadata has %v segments in memory. Out of which %v segment have SSMs loaded. This accounts for %v MB",
-		memory.GlobalMemoryTracker.SegStoreSummary.TotalMetricsSegmentCount,
-		memory.GlobalMemoryTracker.SegStoreSummary.InMemoryMetricsSearchMetadataCount,
-		memory.GlobalMemoryTracker.SegStoreSummary.InMemoryMetricsBSumSizeMB)
+		atomic.LoadUint64(&memory.GlobalMemoryTracker.SegStoreSummary.TotalMetricsSegmentCount),
+		atomic.LoadUint64(&memory.GlobalMemoryTracker.SegStoreSummary.InMemoryMetricsSearchMetadataCount),
+		atomic.LoadUint64(&memory.GlobalMemoryTracker.SegStoreSummary.InMemoryMetricsBSumSizeMB))
 
 	metricsSizeInfo := metrics.GetMetricsEncodedSizeInfo()
 	log.Infof("GlobalMemoryTracker: MetricsEncodedSizeInfo: TotalTagTrees: %d, TotalLeafNodes: %d, TotalTagsTreeSize: %.4f MB. TotalSeriesCount: %d, TotalTSIDs: %d, TotalTSIDLookup (reverse Index): %d, TotalMSegmentsEncodedSize(AllBlocks): %.4f MB, TotalInMemoryMSegEncodedSize: %.4f MB, InMemoryMSegEncSize + TotalTagsTreeSize: %.4f MB",
